@@ -140,7 +140,12 @@ func (it *RangeIterator) M__next__() (Object, error) {
 	if it.Step < 0 && r <= it.Stop {
 		return nil, StopIteration
 	}
-	it.Index += it.Step
+	next := r + it.Step
+	if (it.Step > 0 && next < r) || (it.Step < 0 && next > r) {
+		// r + step does not fit an Int: r was the last element
+		next = it.Stop
+	}
+	it.Index = next
 	return r, nil
 }
 
